@@ -691,3 +691,72 @@ def mt9(P, C):
              "trial step continues from the previous job's value" % (fld, ", ".join(E.loc(b) for b in bad)))
     if not acc:
         raise core.AnalysisBroken("MT-9: no accumulated field found in the job loop")
+
+
+def mt10(P, C):
+    """MT-10: the worker's start routine is left only in answer to TERMINATE."""
+    C.rule("MT-10", "every way out of the worker's start routine (return, falling off the end, pthread_exit) is reachable only through the "
+           "true edge of a test `state == TERMINATE`: the coordinator hands RUN to every worker it created and waits until each is back in "
+           "WAIT, so a worker that leaves for any other reason (a failed set-up call, an error inside a job) is waited for forever", floor=1)
+    E = P.one("evaluate_descent", file_endswith="cholesky_solve.c")
+    ex = E.cfg["exit"]
+
+    def feasible_succs(b):
+        blk = E.blocks[b]
+        ss = blk["succ"]
+        tc = blk.get("termCond")
+        if tc is not None and len(ss) == 2:
+            n = E.nodes[E.strip(tc)]
+            cv = n.get("cv")
+            if cv is not None:                       # constant condition (`while (1)`): only one edge is feasible
+                return [ss[0]] if cv else [ss[1]]
+            # edge taken when state == TERMINATE: cut (that is the sanctioned way out)
+            neg = False
+            c = E.strip(tc)
+            while E.k(c) == "UnaryOperator" and E.nodes[c].get("op") == "!":
+                neg = not neg
+                c = E.strip(E.nodes[c]["ch"][0])
+            cn = E.nodes[c]
+            if cn["k"] == "BinaryOperator" and cn["op"] in ("==", "!="):
+                l, r = (E.strip(x) for x in cn["ch"])
+                if field_access(E, r) == STATE_FIELD:
+                    l, r = r, l
+                if field_access(E, l) == STATE_FIELD and E.render(r) == "TERMINATE":
+                    eq = (cn["op"] == "==") != neg
+                    return [ss[1]] if eq else [ss[0]]
+        return ss
+    seen, st = set(), [E.cfg["entry"]]
+    leaves = []
+    n_term = 0
+    for b, blk in E.blocks.items():
+        tc = blk.get("termCond")
+        if tc is not None and "TERMINATE" in E.render(tc):
+            n_term += 1
+    if not n_term:
+        raise core.AnalysisBroken("MT-10: evaluate_descent has no test of state against TERMINATE")
+    while st:
+        b = st.pop()
+        if b in seen or b < 0:
+            continue
+        seen.add(b)
+        blk = E.blocks[b]
+        if blk.get("noReturn"):
+            calls = [call_name(E, e["n"]) for e in blk["elems"] if e.get("kind") == "stmt" and E.k(e["n"]) == "CallExpr"]
+            if any(c in ("pthread_exit", "thrd_exit") for c in calls):
+                leaves.append((b, "pthread_exit"))
+            continue                                   # abort()/__assert_fail end the process: not a silent leave
+        for s in feasible_succs(b):
+            if s == ex and b != ex:
+                leaves.append((b, "return"))
+            elif s >= 0:
+                st.append(s)
+    det = []
+    for b, how in leaves:
+        ns = [e["n"] for e in E.blocks[b]["elems"] if e.get("kind") == "stmt"]
+        t = E.blocks[b].get("term")
+        where = E.loc(t) if t is not None else (E.loc(ns[-1]) if ns else E.where())
+        det.append((where, how))
+    C.ob("MT-10", "evaluate_descent", "leaves-only-on-terminate", not leaves, det[0][0] if det else E.where(),
+         "every exit of the worker lies behind `state == TERMINATE` (%d test(s))" % n_term if not leaves else
+         "the worker can leave without having been told to terminate: %s — the coordinator's completion loop then never sees it return to WAIT"
+         % ", ".join("%s at %s" % (h, w) for w, h in det))
